@@ -3,6 +3,7 @@
    before the operation completes is `err` on both sides (the harness RNG reports exhaustion). *)
 open Io
 let p = Extracted.addsub
+let sp = Extracted.signs
 let v = Base.coq_val
 let arg_r s = digits_of_string (strip_prefix "r:" s)
 let arg_ic s = let r = arg_i s in Base.from_biguint r.Base.sg (Base.strip r.Base.mag)
@@ -47,12 +48,12 @@ let init () =
     reg_ms name
       (function [lo; hi; s] -> let s = arg_r s in outr res_i s (m (arg_ic lo) (arg_ic hi) s) | _ -> failwith "arity")
       (function [lo; hi; s] -> let s = arg_r s in outr si s (sp (Base.ival (arg_ic lo)) (Base.ival (arg_ic hi)) s) | _ -> failwith "arity") in
-  irange "rnd.irange" (Rand.gen_bigint_range p) SpecRand.spec_range;
-  irange "rnd.ui_single" (Rand.ui_sample_single p) SpecRand.spec_range;
-  irange "rnd.i_gen_range" (Rand.ui_sample_single p) SpecRand.spec_range;
-  irange "rnd.ui_new" (fun lo hi s -> bindo (Rand.ui_new p lo hi) (fun u -> Rand.ui_sample p u s)) SpecRand.spec_range;
-  irange "rnd.ui_incl" (fun lo hi s -> bindo (Rand.ui_new_inclusive p lo hi) (fun u -> Rand.ui_sample p u s)) SpecRand.spec_range_inclusive;
-  irange "rnd.i_gen_range_incl" (fun lo hi s -> bindo (Rand.ui_new_inclusive p lo hi) (fun u -> Rand.ui_sample p u s)) SpecRand.spec_range_inclusive;
+  irange "rnd.irange" (Rand.gen_bigint_range sp p) SpecRand.spec_range;
+  irange "rnd.ui_single" (Rand.ui_sample_single sp p) SpecRand.spec_range;
+  irange "rnd.i_gen_range" (Rand.ui_sample_single sp p) SpecRand.spec_range;
+  irange "rnd.ui_new" (fun lo hi s -> bindo (Rand.ui_new sp p lo hi) (fun u -> Rand.ui_sample sp p u s)) SpecRand.spec_range;
+  irange "rnd.ui_incl" (fun lo hi s -> bindo (Rand.ui_new_inclusive sp p lo hi) (fun u -> Rand.ui_sample sp p u s)) SpecRand.spec_range_inclusive;
+  irange "rnd.i_gen_range_incl" (fun lo hi s -> bindo (Rand.ui_new_inclusive sp p lo hi) (fun u -> Rand.ui_sample sp p u s)) SpecRand.spec_range_inclusive;
   (* one sampler, two samples: the sampler is not consumed / mutated by sampling *)
   let twice sample render s u =
     bindo (sample u s) (fun (a, r) -> bindo (sample u r) (fun (b, r2) -> Base.Ret (render a ^ " " ^ render b, r2))) in
@@ -65,6 +66,6 @@ let init () =
        outr (fun x -> x) s (spec_twice SpecRand.spec_range su (v (arg_uc lo)) (v (arg_uc hi)) s) | _ -> failwith "arity");
   reg_ms "rnd.ui_new2"
     (function [lo; hi; s] -> let s = arg_r s in
-       outr (fun x -> x) s (bindo (Rand.ui_new p (arg_ic lo) (arg_ic hi)) (twice (Rand.ui_sample p) res_i s)) | _ -> failwith "arity")
+       outr (fun x -> x) s (bindo (Rand.ui_new sp p (arg_ic lo) (arg_ic hi)) (twice (Rand.ui_sample sp p) res_i s)) | _ -> failwith "arity")
     (function [lo; hi; s] -> let s = arg_r s in
        outr (fun x -> x) s (spec_twice SpecRand.spec_range si (Base.ival (arg_ic lo)) (Base.ival (arg_ic hi)) s) | _ -> failwith "arity")
